@@ -83,7 +83,7 @@ PROPERTIES["C14"] = dict(
         "returned iff the cursor lies inside it, together with the accumulated offset of its Reference chain. "
         "Only these two clauses of C14 are decided."),
     assumptions=[
-        "tokens are adjacent one-byte tokens (token i covers [i, i+1)); kinds drawn from {',', '(', ')', ';', int}",
+        "tokens are adjacent one-byte tokens (token i covers [i, i+1)); kinds drawn from {',', '(', ')', ';', '[', ']', int}",
         "hover text, signature label, selection of the enclosing PROCEDURE and the symbol-table lookup are outside (HashMap / parser out of reach)",
         "enclosing-call harnesses: fixed statement shapes (block/if, block/while, block/else, procedure/call), one-byte adjacent tokens, Reference offsets <= 2 (<= 3 at procedure level)",
         "trusted: kani-compiler, CBMC, CaDiCaL",
@@ -116,7 +116,9 @@ PROPERTIES["C15"] = dict(
         "(ASCII, astral, 2-byte, two lines) with one token of symbolic kind and range per declaration, over two consecutive "
         "declarations that share previous_token_pos exactly as semantic_tokens() does. CBMC decides that the delta-encoded stream decodes to the LSP (UTF-16) positions of "
         "precisely the tokens carrying a lexical class, in order, that `length` is the UTF-16 length of the token text, "
-        "that the class index addresses the right entry of the announced legend, and that no u32 subtraction underflows."),
+        "that the class index addresses the right entry of the announced legend, and that no u32 subtraction underflows. "
+        "One further harness (S4) decides the `declaration` modifier on the name of a type declaration; it FAILS on the pinned tree (token-index range compared with a byte range) - "
+        "a recorded known finding (known_findings.txt, class decl_modifier_units), printed as KNOWN-FINDING."),
     assumptions=[
         "token kinds are decoupled from the text (any kind on any char-boundary range): an over-approximation of what the lexer produces",
         "tokens are increasing and non-overlapping, on char boundaries, inside the text (what C06 guarantees for the lexer)",
@@ -134,6 +136,7 @@ PROPERTIES["C15"] = dict(
         H("features::semantic_tokens::__verif::c15_s1_typedec_across", QT, "real collect_type_dec on two consecutive type declarations sharing previous_token_pos; identifiers classified as TYPE", "concrete 13-byte text, one token of symbolic kind/range per declaration (name: None)", timeout=1500, mem_gb=24),
         H("features::semantic_tokens::__verif::c15_s1_procdec_across", QT, "real collect_proc_dec (empty symbol table) on two consecutive procedure declarations sharing previous_token_pos", "concrete 13-byte text, one token of symbolic kind/range per declaration", timeout=1500, mem_gb=24),
         H("features::semantic_tokens::__verif::c15_s3_all_kinds", QT, "map_token for each of the 36 token kinds", "one token, all kinds, symbolic literal values", timeout=600),
+        H("features::semantic_tokens::__verif::c15_s4_decl_modifier_typedec", QT, "declaration modifier exactly on the token whose INDEX is the type declaration's name range (KNOWN FINDING: fails on the pinned tree)", "concrete 13-byte text, two identifier tokens on symbolic ranges, name index 0 or 1", timeout=900, mem_gb=20, known_class="decl_modifier_units"),
         H("features::semantic_tokens::__verif::c15_twin_must_fail", QT, "vacuity twin", "", expect="fail", timeout=600),
         H("features::semantic_tokens::__verif::c15_s1_chain_t", T, "same as s1_chain_q", "any valid UTF-8 text <= 8 bytes, 2 tokens on symbolic char-boundary ranges; unwind 10", timeout=3600, mem_gb=24),
     ],
@@ -165,8 +168,10 @@ PROPERTIES["C01"] = dict(
     crate_dir="spl_frontend",
     attach={"tokens.rs": "spl_frontend/src/tokens.rs",
             "parser_utility.rs": "spl_frontend/src/parser/utility.rs",
-            "parser.rs": "spl_frontend/src/parser.rs"},
-    functions={"spl_frontend/src/tokens.rs": ["new_token_pos", "out_of_range", "deletes", "overlaps", "location_offset", "advance", "get_old_reference"],
+            "parser.rs": "spl_frontend/src/parser.rs",
+            "ast_traverser.rs": "spl_frontend/src/ast/ast_info_traverser.rs"},
+    functions={"spl_frontend/src/ast/ast_info_traverser.rs": ["impl AstInfoTraverser for Expression::traverse_mut", "impl AstInfoTraverser for Statement::traverse_mut"],
+               "spl_frontend/src/tokens.rs": ["new_token_pos", "out_of_range", "deletes", "overlaps", "location_offset", "advance", "get_old_reference"],
                "spl_frontend/src/parser/utility.rs": ["affected", "info"],
                "spl_frontend/src/parser.rs": ["impl<T: Parser> Parser for Reference<T>::parse"]},
     explanation=(
@@ -176,7 +181,7 @@ PROPERTIES["C01"] = dict(
         "affected() instantiated with a harness node type Leaf = ';'* (maximal, possibly empty run: total parser, one token of look-ahead) on an arbitrary old token "
         "array, an arbitrary truthful window with up to 2 inserted tokens, an arbitrary old node and every reachable parser "
         "position: whenever the old node is REUSED, a parse from scratch at that position yields the same node and rest "
-        "(A2); a reused node keeps exactly its lexical/syntax messages (A3); info() records node ranges relative to the enclosing Reference in the new stream and keeps the caller's diagnostics apart (A4i); Reference::parse, from scratch, restores the caller's frame "
+        "(A2); a reused node keeps exactly its lexical/syntax messages (A3); the real traverse_mut of Expression/Variable trees, through which affected() strips a reused REAL node, visits every AstInfo of the tree, for seven concrete tree shapes with symbolic ranges/offsets (A3t); info() records node ranges relative to the enclosing Reference in the new stream and keeps the caller's diagnostics apart (A4i); Reference::parse, from scratch, restores the caller's frame "
         "and computes offset relative to the enclosing Reference in the new stream (A4). "
         "A pass is necessary, not sufficient, for C01."),
     assumptions=[
@@ -185,6 +190,7 @@ PROPERTIES["C01"] = dict(
         "token kinds from {';', ',', '(', Eof}; the window never contains Eof (lexer::update pops it)",
         "one edit step from an arbitrary old state (inductive-step formulation); histories are not unrolled",
         "the frame condition of Reference::parse on failure WITHOUT an old node is deliberately not asserted (DESIGN §5)",
+        "A3t: one harness per concrete tree shape (int, error, named variable, -1, (1), 1+1, a[1]); only the stored token ranges / Reference offsets are symbolic; a tree of symbolic shape, the nested shape (-1)+a[1] and Statement trees gave no verdict in 8-10 min and are not registered",
         "harness-owned values are mem::forget-ed; trusted: kani-compiler, CBMC, CaDiCaL",
     ],
     outside=["more old tokens / inserted tokens than the bound", "real AST node parsers and their look-ahead", "many(), parse_list(), handle_insertions (list resynchronisation)", "lexer::update", "table::build / analyze"],
@@ -199,6 +205,14 @@ PROPERTIES["C01"] = dict(
         H("parser::utility::__verif::c01_a2_twin_must_fail", QT, "vacuity twin", "", expect="fail", timeout=900),
         H("parser::__verif::c01_a4_scratch", QT, "Reference::parse frame conditions and offset: no old node", "concrete window/position; 4 old tokens + Eof of symbolic kind, symbolic enclosing frame and old offsets", timeout=900),
         H("parser::__verif::c01_a4_twin_must_fail", QT, "vacuity twin", "", expect="fail", timeout=900),
+        H("ast::ast_info_traverser::__verif::c01_a3t_expr_int", QT, "real traverse_mut visits EVERY AstInfo of the tree (so affected()'s message stripping reaches every nested node of a reused tree)", "one concrete tree shape `int literal`; token ranges and Reference offsets symbolic; in-place, no Clone", timeout=600, mem_gb=12),
+        H("ast::ast_info_traverser::__verif::c01_a3t_expr_error", QT, "real traverse_mut visits EVERY AstInfo of the tree (so affected()'s message stripping reaches every nested node of a reused tree)", "one concrete tree shape `error node`; token ranges and Reference offsets symbolic; in-place, no Clone", timeout=600, mem_gb=12),
+        H("ast::ast_info_traverser::__verif::c01_a3t_expr_unary", QT, "real traverse_mut visits EVERY AstInfo of the tree (so affected()'s message stripping reaches every nested node of a reused tree)", "one concrete tree shape `-1`; token ranges and Reference offsets symbolic; in-place, no Clone", timeout=600, mem_gb=12),
+        H("ast::ast_info_traverser::__verif::c01_a3t_expr_bracketed", QT, "real traverse_mut visits EVERY AstInfo of the tree (so affected()'s message stripping reaches every nested node of a reused tree)", "one concrete tree shape `(1)`; token ranges and Reference offsets symbolic; in-place, no Clone", timeout=600, mem_gb=12),
+        H("ast::ast_info_traverser::__verif::c01_a3t_expr_binary", QT, "real traverse_mut visits EVERY AstInfo of the tree (so affected()'s message stripping reaches every nested node of a reused tree)", "one concrete tree shape `1+1`; token ranges and Reference offsets symbolic; in-place, no Clone", timeout=600, mem_gb=12),
+        H("ast::ast_info_traverser::__verif::c01_a3t_expr_named", QT, "real traverse_mut visits EVERY AstInfo of the tree (so affected()'s message stripping reaches every nested node of a reused tree)", "one concrete tree shape `a`; token ranges and Reference offsets symbolic; in-place, no Clone", timeout=600, mem_gb=12),
+        H("ast::ast_info_traverser::__verif::c01_a3t_expr_array_access", QT, "real traverse_mut visits EVERY AstInfo of the tree (so affected()'s message stripping reaches every nested node of a reused tree)", "one concrete tree shape `a[1]`; token ranges and Reference offsets symbolic; in-place, no Clone", timeout=600, mem_gb=12),
+        H("ast::ast_info_traverser::__verif::c01_a3t_twin_must_fail", QT, "vacuity twin", "", expect="fail", timeout=600),
         H("parser::utility::__verif::c01_a2_t", T, "affected(): reuse => same as parse from scratch", "8 old tokens + Eof, <=2 inserted; unwind 3 (loop-free harness)", timeout=5400, mem_gb=30),
     ],
 )
